@@ -792,6 +792,10 @@ class WorkTree:
           config: Stacked configuration used for filter setup. If None,
             falls back to ``self._repo.get_config_stack()``.
         """
+        if self._repo.bare:
+            # Without a work tree the files of the tree would be written into
+            # the control directory (hooks/, config, ...).
+            raise NoIndexPresent
         if config is None:
             config = self._repo.get_config_stack()
         stacked_config = config
